@@ -157,6 +157,31 @@ func init() {
 		}
 		return &ReflVal{typ: fld.Type(), val: e.reflGet(r).(*StructV).f[i], ro: ro, ero: ero}
 	})
+	reg("FieldByIndex", func(e *Engine, f *frame, a []Value) Value {
+		v := a[0]
+		idx := e.sliceElems(a[1])
+		if len(idx) == 1 {
+			return intrinsics[R+"Field"](e, f, []Value{v, idx[0]})
+		}
+		if r := e.reflMust(v, "FieldByIndex"); reflKind(r.typ) != 25 {
+			e.x.goPanic(nil, nil, "reflect: call of FieldByIndex on "+reflTypeString(r.typ))
+		}
+		for i, x := range idx {
+			if i > 0 {
+				r := e.reflMust(v, "FieldByIndex")
+				if pt, ok := r.typ.Underlying().(*types.Pointer); ok {
+					if _, isStruct := pt.Elem().Underlying().(*types.Struct); isStruct {
+						if p, ok := e.reflGet(r).(*Ptr); ok && p.s == nil {
+							e.x.goPanic(nil, nil, "reflect: indirection through nil pointer to embedded struct")
+						}
+						v = intrinsics[R+"Elem"](e, f, []Value{v})
+					}
+				}
+			}
+			v = intrinsics[R+"Field"](e, f, []Value{v, x})
+		}
+		return v
+	})
 	reg("Len", func(e *Engine, f *frame, a []Value) Value {
 		return e.b.BVi(int64(e.reflLen(e.reflMust(a[0], "Len"), "Len")), 64)
 	})
